@@ -9,6 +9,7 @@ import Frrs.Proofs.Stanza
 import Frrs.Oracle
 import Frrs.Props.C15
 import Frrs.Proofs.CliValues
+import Frrs.Validate
 namespace Frrs.C06
 open Frrs
 set_option linter.unusedSimpArgs false
@@ -152,5 +153,9 @@ example : parseMaxBlobSize b!"1_000" = some 1000 := by decide +kernel
 example : parseMaxBlobSize b!"10m" = some 10485760 := by decide +kernel
 example : parseMaxBlobSize b!"17179869184G" = none := by decide +kernel     -- 2^34 · 2^30 = 2^64
 example : parseMaxBlobSize b!"" = none ∧ parseMaxBlobSize b!"K" = none ∧ parseMaxBlobSize b!"5T" = none := by decide +kernel
+
+/-- a limit of zero bytes (which would strip every non-empty blob and is almost certainly a typo) is refused -/
+theorem zero_limit_refused (o : FOpts) (nd : Bool) : validOptions { o with maxBlob := some 0 } nd = false := by
+  simp [validOptions]
 
 end Frrs.C06
